@@ -103,6 +103,8 @@ def gen_plan(rng, tier="quick"):
     if rng.random() < 0.08:
         recipe["scalar_coord"] = True
     op = O.gen_op(rng, recipe, pool)
+    if op["m"] == "reconstruct" and tier != "thorough":
+        op = O.gen_op(rng, recipe, "stats")       # the three-stage pipeline costs 10-60 s per run: thorough tier only
     cls = O.tol_class(op)
     if op["m"] in ("ptm1", "ptm2", "ptm3", "hp01") and rng.random() < (0.12 if tier == "thorough" else 0.06):
         # large spectral grids (>= 1000 bins): code paths that switch on size (thresholded fast paths)
@@ -110,7 +112,13 @@ def gen_plan(rng, tier="quick"):
         recipe["nd"] = rng.choice([36, 36, 48, 72])
         nf, nd = recipe["nf"], recipe["nd"]
         dims[:] = [[k, min(n, 3)] for k, n in dims]
-    if cls == "exact" or op["m"] in O.PARTITIONS or op["m"] == "smooth":
+    if op["m"] == "reconstruct":
+        # three chained stages per spectrum (watershed, statistics of every partition, parametric shapes): keep it small
+        recipe["nf"], recipe["nd"] = min(recipe["nf"], 10), min(recipe["nd"], 12)
+        while int(np.prod([n for _, n in dims] or [1])) > 4:
+            i = max(range(len(dims)), key=lambda j: dims[j][1])
+            dims[i][1] -= 1
+    if cls == "exact" or op["m"] in O.PARTITIONS or op["m"] in ("smooth", "reconstruct"):
         recipe["data"]["kind"] = "int_bumps"
         if op["m"] in ("hp01", "ptm1", "ptm2", "ptm3") and rng.random() < (0.7 if op["m"] == "hp01" else 0.3):
             recipe["data"]["kind"] = "int_multi"
@@ -149,8 +157,8 @@ def gen_plan(rng, tier="quick"):
         k = rng.choice(lead)
         chunks[k] = rng.choice([1, 1, 2]) if sizes[k] > 2 else 1
     # bound the graph: rolling-window operations on single-element blocks explode into 10^4 tasks
-    heavy = op["m"] in ("smooth", "rotate", "interp") or op.get("kw", {}).get("smooth")
-    limit = (16 if heavy else 48) * (2 if big else 1)
+    heavy = op["m"] in ("smooth", "rotate", "interp", "reconstruct") or op.get("kw", {}).get("smooth")
+    limit = 4 if op["m"] == "reconstruct" else (16 if heavy else 48) * (2 if big else 1)
 
     def nblocks(k):
         v = chunks[k]
@@ -181,13 +189,16 @@ def gen_plan(rng, tier="quick"):
         "d": rng.randint(1, 3),
         "expected_points": rng.choice([200, 1000, 5000]),
     }
+    if op["m"] == "reconstruct":
+        cfg["K"] = min(cfg["K"], 4)
+        cfg["gap_mean"] = max(cfg["gap_mean"], 5)
     plan = {"engine": NAME, "recipe": recipe, "op": op, "chunks": chunks, "aux": aux, "aux_chunks": aux_chunks, "coords": coords, "cfg": cfg}
     if rng.random() < 0.12 and recipe["nd"]:
         # the dask-backed data is what one of the library's readers returns for a file (chunks= given to the reader, in
         # wavespectra's or the file's own dimension names), the in-memory data what the same reader returns, loaded
         station = sorted(k for k, _ in dims) == ["site", "time"]
         plan["source"] = {"fmt": rng.choice(["ww3", "netcdf"]) if station else "netcdf", "names": rng.choice(["ws", "ws", "native"])}
-    if rng.random() < (0.35 if op["m"] in O.PARTITIONS or op["m"].startswith("fit") else 0.15) and op["m"] not in ("sel", "interp"):
+    if rng.random() < (0.35 if op["m"] in O.PARTITIONS or op["m"].startswith("fit") else 0.15) and op["m"] not in ("sel", "interp", "reconstruct"):
         if cfg["strategy"] in ("solo", "pct") and rng.random() < 0.7:
             cfg["strategy"] = rng.choice(["rw", "lockstep"])
         cfg["K"] = max(cfg["K"], rng.choice([2, 4, 4, 8]))     # tasks of both graphs must be in flight together
